@@ -30,6 +30,11 @@ def configs(t):
         cfg(3, 4, 0, late=[2], warm=6, cost=4),
         # a late joiner is held CHECKED while the distribution lasts (slow start) and is lost in that state
         cfg(3, 5, 0, late=[2], rules=True, slow_start=True, F=1, faults=['crash'], crashable=[2], warm=4, cost=7),
+        # the instance that runs a process is lost after a third instance, which knows the program too, has joined
+        # (its report of the process is newer than the runner's): the process must still end FATAL and unlisted
+        cfg(3, 4, 0, late=[2], rules=True, F=1, faults=['crash'], crashable=[0], warm=6, prejoin=5, cost=9),
+        # slow handshake of a late joiner (late reply, TICK on the wire) under auto_fence
+        dict(cfg(2, 4, 0, faults=['hang', 'lag'], fence=True, late=[1], warm=6, cost=6), hangable=[[1, 0]], laggable=[[0, 1]]),
     ]
     if t == 'quick':
         return q
